@@ -1,13 +1,17 @@
 package props
 
 import (
+	"context"
 	"errors"
 	"fmt"
 	"math/rand"
 	"os"
 	"path/filepath"
 	"strings"
+	"sync"
 	"time"
+
+	"github.com/oxia-db/oxia/proto"
 
 	time2 "github.com/oxia-db/oxia/common/time"
 	"github.com/oxia-db/oxia/server/wal"
@@ -223,8 +227,30 @@ func (C10) Generate(rng *rand.Rand, tier string) []core.Case {
 	if len(ops) > 0 {
 		cases = append(cases, core.Case{Name: "codec-last", Ops: ops})
 	}
+	// a syncing WAL across segment boundaries: what is reported as synced has been msync'ed
+	np := 12
+	if tier == "thorough" {
+		np = 400
+	}
+	for i := 0; i < np; i++ {
+		seg := []int{160, 200, 256, 400, 1024}[rng.Intn(5)]
+		var po []string
+		for j := 2 + rng.Intn(14); j > 0; j-- {
+			if rng.Intn(4) == 0 {
+				po = append(po, "s")
+			} else {
+				po = append(po, fmt.Sprintf("a%d", 1+rng.Intn(seg/4)))
+			}
+		}
+		if rng.Intn(3) > 0 {
+			po = append(po, "s")
+		}
+		cases = append(cases, core.Case{Name: fmt.Sprintf("wal-power-%d", i), Ops: []string{fmt.Sprintf("cw.power seg=%d ops=%s", seg, strings.Join(po, ","))}})
+	}
 	return cases
 }
+
+var powerMu sync.RWMutex
 
 func c10op(op string) string {
 	f := strings.Fields(op)
@@ -267,7 +293,93 @@ func c10op(op string) string {
 		buf := make([]byte, len(p)+int(c.GetHeaderSize()))
 		sz, crc := c.WriteRecord(buf, 0, prev, p)
 		return fmt.Sprintf("%s %d", core.Hex(buf[:sz]), crc)
+	case "cw.power":
+		// cw.power seg=<bytes> ops=a20,a8,s,...: a syncing WAL; aN = AppendAsync of an entry with N payload
+		// bytes, s = Sync. Afterwards: the offset the WAL reports as synced, and the highest offset up to which
+		// every entry lies in a part of its segment file that an msync has covered since it was written
+		// (what survives a power failure). The observation hook is process-wide: one such op at a time.
+		powerMu.Lock()
+		defer powerMu.Unlock()
+		kv := c20kv(f)
+		var seg int
+		fmt.Sscan(kv["seg"], &seg)
+		type segInfo struct {
+			flushed uint32
+			ends    map[int64]uint32
+		}
+		var mu sync.Mutex
+		segs := map[int64]*segInfo{}
+		get := func(b int64) *segInfo {
+			if segs[b] == nil {
+				segs[b] = &segInfo{ends: map[int64]uint32{}}
+			}
+			return segs[b]
+		}
+		wal.SetVerifSegmentHook(func(kind string, base, off int64, fo uint32) {
+			mu.Lock()
+			defer mu.Unlock()
+			si := get(base)
+			switch kind {
+			case "append":
+				si.ends[off] = fo
+			case "flush":
+				if fo > si.flushed {
+					si.flushed = fo
+				}
+			}
+		})
+		defer wal.SetVerifSegmentHook(nil)
+		dir, err := os.MkdirTemp(workTmp(), "c10p-")
+		if err != nil {
+			return "err:other:" + err.Error()
+		}
+		defer os.RemoveAll(dir)
+		w, err := wal.VerifNewWal("ns", 1, &wal.FactoryOptions{BaseWalDir: dir, Retention: time.Hour, SegmentSize: int32(seg), SyncData: true},
+			nil, &time2.MockedClock{}, 24*time.Hour)
+		if err != nil {
+			return "err:other:" + strings.ReplaceAll(err.Error(), " ", "_")
+		}
+		defer w.Close()
+		next := int64(0)
+		for _, o := range strings.Split(kv["ops"], ",") {
+			switch {
+			case o == "s":
+				if err := w.Sync(context.Background()); err != nil {
+					return "err:sync:" + strings.ReplaceAll(err.Error(), " ", "_")
+				}
+			case strings.HasPrefix(o, "a"):
+				var n int
+				fmt.Sscan(o[1:], &n)
+				if err := w.AppendAsync(&proto.LogEntry{Term: 1, Offset: next, Value: make([]byte, n)}); err != nil {
+					return "err:append:" + strings.ReplaceAll(err.Error(), " ", "_")
+				}
+				next++
+			}
+		}
+		synced := w.LastOffset()
+		mu.Lock()
+		durable := int64(-1)
+		for o := int64(0); o < next; o++ {
+			ok := false
+			for _, si := range segs {
+				if e, has := si.ends[o]; has && e <= si.flushed {
+					ok = true
+				}
+			}
+			if !ok {
+				break
+			}
+			durable = o
+		}
+		mu.Unlock()
+		// more may be durable than reported (a rollover flushes what it leaves): only "at least" is comparable
+		if durable >= synced {
+			return fmt.Sprintf("synced=%d durable=ok", synced)
+		}
+		return fmt.Sprintf("synced=%d durable=%d", synced, durable)
 	case "cw.reopen":
+		powerMu.RLock()
+		defer powerMu.RUnlock()
 		// the image becomes segment file 0.txnx of a WAL directory; open the real WAL on it
 		img := core.UnHex(f[1])
 		var uf int64
@@ -342,6 +454,13 @@ func (C10) Oracle(ops, impl, model []string) string {
 			return fmt.Sprintf("op %d hangs", i)
 		}
 		f := strings.Fields(o)
+		if f[0] == "cw.power" {
+			var sy, du int
+			if _, err := fmt.Sscanf(out, "synced=%d durable=%d", &sy, &du); err == nil && du < sy && !strings.HasSuffix(out, "durable=ok") {
+				return fmt.Sprintf("op %d: the WAL reports offset %d as synced, but entry %d lies in a part of its segment file that no msync has covered since it was written: a power failure loses entries reported as synced", i, sy, du+1)
+			}
+			continue
+		}
 		if f[0] != "cx.recover" || !strings.HasPrefix(out, "ok ") {
 			if f[0] == "cx.recover" && f[1] == "2" {
 				// an error is only legitimate if a committed record was damaged (with no commit
